@@ -94,7 +94,7 @@ domain `Writable`, followed by any further text `rest'` (the next record of a st
 `readBack reg r p`, leaves exactly `rest'`, and the registry has only grown. -/
 theorem read_write (reg : Registry) (r : Record) (p : Bytes) (ho : r.origin = .residues p)
     (hw : Writable reg r p = true) (hloc : ∀ x ∈ r.table, LocRT x.loc) (rest' : Bytes) :
-    ∃ t, write reg r = .ok t ∧
+    ∃ t, write reg r = .ok t ∧ t ≠ [] ∧
       genbankParser reg ⟨t ++ rest', []⟩ = (.ok (readBack reg r p, learnTable reg r.table), ⟨rest', []⟩) := by
   obtain ⟨hlocus, hmol, hh, htw, hc, hp, hlen⟩ := writable_parts reg r p hw
   obtain ⟨hw1, hw2⟩ := write_eq reg r p ho hh hlen
@@ -132,7 +132,7 @@ theorem read_write (reg : Registry) (r : Record) (p : Bytes) (ho : r.origin = .r
     rw [this, readBack_eq reg r p tab hc htab]
   cases htab : r.table with
   | nil =>
-    refine ⟨_, hw1 htab, ?_⟩
+    refine ⟨_, hw1 htab, by simp, ?_⟩
     have e : locusLine r.fields (locusLength r.fields p) ++ 10 ::
         (secsText (headerSecs r.fields) ++ (secsText (tailSecs r.fields p) ++ bs "//\n")) ++ rest' =
         locusLine r.fields (locusLength r.fields p) ++ 10 ::
@@ -151,7 +151,7 @@ theorem read_write (reg : Registry) (r : Record) (p : Bytes) (ho : r.origin = .r
     simp only at htw
     obtain ⟨txt, htxt, _⟩ := loop_features (locusLength r.fields p) 0 (startFields r.fields) [] (.buffer []) reg ft fs
       (bs "//\n") htw hloc (startsField_end [])
-    refine ⟨_, hw2 ft fs txt htab htxt, ?_⟩
+    refine ⟨_, hw2 ft fs txt htab htxt, by simp, ?_⟩
     have e : locusLine r.fields (locusLength r.fields p) ++ 10 ::
         (secsText (headerSecs r.fields) ++ (bs "FEATURES             Location/Qualifiers\n" ++ (txt ++ 10 ::
           (secsText (tailSecs r.fields p) ++ bs "//\n")))) ++ rest' =
@@ -181,5 +181,51 @@ theorem read_write (reg : Registry) (r : Record) (p : Bytes) (ho : r.origin = .r
           simp only [List.length_append] at hitA hitB this ⊢
           omega)) (by simp [htab])
     exact this
+
+/-! ### streams -/
+
+theorem parseAll_records (reg : Registry) (rs : List (Record × Bytes))
+    (hall : ∀ x ∈ rs, x.1.origin = .residues x.2 ∧ Writable reg x.1 x.2 = true ∧ (∀ f ∈ x.1.table, LocRT f.loc) ∧
+      learnTable reg x.1.table = reg) (acc : List Record) (fuel : Nat) (hf : rs.length < fuel) :
+    ∃ t, writeAll reg (rs.map (·.1)) = .ok t ∧ rs.length ≤ t.length ∧
+      parseAll reg fuel t acc = some (acc.reverse ++ rs.map (fun x => readBack reg x.1 x.2), reg, true) := by
+  induction rs generalizing acc fuel with
+  | nil =>
+    cases fuel with
+    | zero => omega
+    | succ k => exact ⟨[], rfl, by simp, by simp [parseAll]⟩
+  | cons x rs ih =>
+    cases fuel with
+    | zero => omega
+    | succ k =>
+      obtain ⟨ho, hw, hloc, hstable⟩ := hall x (by simp)
+      obtain ⟨t2, hw2, hl2, hp2⟩ := ih (fun y hy => hall y (by simp [hy])) (readBack reg x.1 x.2 :: acc) k
+        (by simp only [List.length_cons] at hf; omega)
+      obtain ⟨t1, hw1, hne, hp1⟩ := read_write reg x.1 x.2 ho hw hloc t2
+      refine ⟨t1 ++ t2, ?_, ?_, ?_⟩
+      · simp only [List.map_cons, writeAll, hw1, hw2]; rfl
+      · have : 1 ≤ t1.length := by cases t1 with | nil => exact absurd rfl hne | cons _ _ => simp
+        simp only [List.length_cons, List.length_append]; omega
+      · have hne' : (t1 ++ t2).isEmpty = false := by cases t1 with | nil => exact absurd rfl hne | cons _ _ => rfl
+        rw [hstable] at hp1
+        simp only [parseAll, hne', Bool.false_eq_true, if_false, P.run', ExceptT.run, StateT.run] at hp2 ⊢
+        have hp1' : (genbankParser reg) ⟨t1 ++ t2, []⟩ = (.ok (readBack reg x.1 x.2, reg), ⟨t2, []⟩) := hp1
+        rw [show (genbankParser reg : PS → _) ⟨t1 ++ t2, []⟩ = _ from hp1']
+        simp only [hp2]
+        simp
+
+/-- **Framing of multi-record streams.**  A stream of `Writable` records (whose qualifier names
+are all registered, so that the registry is the same for every record) written with `WriteSeq` and
+read until the input is used up yields exactly the records, each as `readBack`, and no error. -/
+theorem read_stream (reg : Registry) (rs : List (Record × Bytes))
+    (hall : ∀ x ∈ rs, x.1.origin = .residues x.2 ∧ Writable reg x.1 x.2 = true ∧ (∀ f ∈ x.1.table, LocRT f.loc) ∧
+      learnTable reg x.1.table = reg) :
+    ∃ t, writeAll reg (rs.map (·.1)) = .ok t ∧
+      readAll reg t = some (rs.map (fun x => readBack reg x.1 x.2), reg, true) := by
+  obtain ⟨t, hw, hl, _⟩ := parseAll_records reg rs hall [] (rs.length + 1) (by omega)
+  obtain ⟨t', hw', _, hp⟩ := parseAll_records reg rs hall [] (t.length + 1) (by omega)
+  rw [hw] at hw'
+  cases hw'
+  exact ⟨t, hw, by simpa [readAll] using hp⟩
 
 end Gts.GenBank
